@@ -100,6 +100,8 @@ class C02(Check):
         wk, build, struct, planted, devs, gap = st
         if wk[0] == "shipped":
             return
+        if devs and not (wk == ("toy",) and len(struct) <= 2 and gap == 0.1):
+            return      # second deviation: toy gene, <=2 copies, gap 0.1 (the thorough tier's deepest slice)
         gene = worlds.gene_of(wk, build)
         base = self._base_table(gene, struct, planted)
         cells = []
